@@ -578,10 +578,49 @@ def real_transport_phase(ctx):
         elif got != ["EOFError"]:
             ctx.violation("waiter-after-local-close-got:" + str(got)[:30] + ":" + kind, case, observed=got, expected="EOFError", what="a waiter whose connection was closed under it did not fail with EOFError")
 
+def hook_closes_again_phase(ctx):
+    """the disconnect hook itself calls conn.close() (applications do: 'make sure it is closed'), on the side that closes and on the side
+    that is told to close by the peer: while the hook runs the side already reports closed, so the inner close() is a no-op and the hook
+    runs once."""
+    from harness.memstream import connect_pair
+
+    class SvcR(rpyc.Service):
+        def __init__(self): self.hooks = 0
+        def on_disconnect(self, conn):
+            self.hooks += 1
+            if self.hooks < 5:
+                conn.close()
+    for who in ("closer", "told-to-close"):
+        sa, sb = SvcR(), SvcR()
+        A, B, _, _ = connect_pair(sa, sb, {}, {})
+        case = {"hook_closes_again": who}
+        ctx.case(("hook-closes-again", who), nontrivial=True, sample=case)
+        ctx.count("hook-calls-close:" + who)
+        raised = None
+        try:
+            with C.time_limit(60):
+                A.close()
+                for _ in range(4):
+                    try:
+                        B.serve(0)
+                    except EOFError:
+                        break
+        except C.Hang:
+            raise
+        except BaseException as e:
+            raised = type(e).__name__
+        for nm, conn, svc in (("A", A, sa), ("B", B, sb)):
+            if svc.hooks != 1 or not conn.closed or raised:
+                ctx.violation("hook-runs-%d-times:close-from-inside-the-hook:%s" % (svc.hooks, "closing side" if nm == "A" else "side told to close"), case,
+                              observed={"side": nm, "hooks": svc.hooks, "closed": bool(conn.closed), "raised": raised}, expected="hook once, closed, nothing raised",
+                              what="the disconnect hook called close(): the side did not yet report closed while its hook ran, and the cleanup ran again")
+
+
 def run(ctx):
     model = C.Model("lifecycle"); model = model if model.available() else None
     facts = gen_facts()
     close_serving_phase(ctx, model, facts)
+    hook_closes_again_phase(ctx)
     ctx.coverage_extra["rule"] = ("workloads {sync, async, nested callback, references both ways, fire-and-forget callback} x close orders {AB, BA, A, B, none}; for each a clean run counts the "
                                   "(AB/BA: the second side closes after it has noticed; A|B, B|A: both close at once, each with the other's close request unread) - a clean run counts the "
                                   "transport calls of both sides, then one failure is injected at every individual poll/read/write call index of each side, and for writes additionally after "
